@@ -103,7 +103,7 @@ pub fn pystd(path: &str) -> Value {
             match chunk {
                 Expr::TypeAscription(tasc) => {
                     if let Expr::Accessor(Accessor::Ident(id)) = tasc.expr.as_ref() {
-                        decls.push(json!({"form": "asc", "name": id.inspect().to_string(),
+                        decls.push(json!({"form": "asc", "name": id.inspect().to_string(), "op": tasc.t_spec.op.content.to_string(),
                             "public": ident_public(&id.vis), "line": id.name.token().lineno}));
                     } else {
                         decls.push(json!({"form": "asc-other", "text": format!("{}", tasc.expr).trim().to_string()}));
